@@ -8,7 +8,7 @@ one() {
   w=$(mktemp -d /tmp/seedcopy.XXXXXX)
   git -C /repo archive HEAD | tar -x -C $w
   if ! (cd $w && git apply $d/patch.diff 2>/dev/null); then echo "$id: PATCH-NO-LONGER-APPLIES"; rm -rf $w; return; fi
-  out=$(bin/rapidlint -repo $w -property $prop -known known_findings.json -evidence $w/.ev.json 2>&1)
+  out=$(${RL:-bin/rapidlint} -repo $w -property $prop -known known_findings.json -evidence $w/.ev.json 2>&1)
   rm -rf $w
   if echo "$out" | grep -q "^VIOLATION property=$prop"; then
     echo "$id: detected by $prop: $(echo "$out" | grep -m1 -o 'VIOLATED [^ ]*\|UNDECIDED [^ ]*')"
